@@ -183,6 +183,8 @@ CONSTANTS
   WithRollback = %s
   WithText = %s
   Enc = "%s"
+  WithIso = %s
+  WithConflict3 = %s
 INVARIANTS %s LocalEffect Convergence
 %sCHECK_DEADLOCK FALSE
 """
@@ -199,6 +201,8 @@ def gen_doc(run, variants):
         whist = var[6] if len(var) > 6 else False
         wrb = var[7] if len(var) > 7 else False
         tenc = var[8] if len(var) > 8 else None
+        wiso = var[10] if len(var) > 10 else False
+        wc3 = var[11] if len(var) > 11 else False
         # num = 0: exhaustive search with transition coverage (one behaviour per (state, incoming
         # transition) pair); otherwise random simulation of num traces
         exh = num <= 0
@@ -207,6 +211,7 @@ def gen_doc(run, variants):
         cfg = GEN_DOC_CFG % (reps, depth, keys, "TRUE" if withlist else "FALSE",
                              "TRUE" if inserts else "FALSE", "TRUE" if whist else "FALSE",
                              "TRUE" if wrb else "FALSE", "TRUE" if tenc else "FALSE", tenc or "cp",
+                             "TRUE" if wiso else "FALSE", "TRUE" if wc3 else "FALSE",
                              "EmitAll" if exh else "Emit",
                              ("VIEW %s\n" % view) if exh else "")
         behs, r = tlc_behaviours("Doc.tla", cfg, os.path.join(run.work, "gendoc"), {}, num, depth + 1,
@@ -218,7 +223,7 @@ def gen_doc(run, variants):
         with open(bp, "w") as f:
             f.write("\n".join(behs) + "\n")
         outp = os.path.join(run.work, f"rep-doc-{vi}.json")
-        replay_bin(["doc", bp, outp] + (["text:" + tenc] if tenc else (["list"] if withlist else [])))
+        replay_bin(["doc", bp, outp] + (["text:" + tenc] if tenc else (["list"] if withlist else (["conflict3"] if wc3 else []))))
         res = json.load(open(outp))
         total += res["behaviours"]
         run.cov["evaluations"] += res["steps"]
@@ -594,6 +599,15 @@ def c29(run):
     run.validate("Trace_Graph.tla", ["C29"], t2, "isomarks-graph")
     run.validate("Trace_Interp.tla", ["C29"], t2, "isomarks-interp")
     count_nontrivial(run, t2, has_iso)
+    # spec -> impl: Doc.tla IsoCall (committed one-call transactions isolated at every antichain) from a base state
+    # with three concurrent values counter/int/int; reads inside the transaction, the document after the commit and
+    # the agreement of the iterator reads with get/get_all are compared after every step
+    if run.tier == "quick":
+        gen_doc(run, [("1, 2", 2, False, 0, True, '"k1"', False, False, None, False, True, True),
+                      ("1", 3, False, 0, True, '"k1"', False, False, None, False, True, False)])
+    else:
+        gen_doc(run, [("1, 2", 3, False, 0, True, '"k1"', False, False, None, False, True, True),
+                      ("1, 2", 4, False, 0, True, '"k1"', False, False, None, False, True, False)])
     # isolated transactions on conflicted registers (counters, increments, overwrites), observed also through the
     # iterator reads (list_range / map_range / values), which go through the top index
     t3 = os.path.join(run.work, "isoconf.ndjson")
